@@ -169,6 +169,7 @@ func cmdCheck(args []string) int {
 				rep.Res = &VerifyResult{Key: k, Aborted: "contract names a function that does not exist in the current tree"}
 			} else {
 				x := NewExec(prog, fn, prop)
+				x.findings = ff.Findings
 				rep.X = x
 				rep.Res = x.Verify()
 				if k == "packet.CRC16" && prop == "C03" {
